@@ -35,6 +35,17 @@ example :
       .q 1 (.prim (.image .red))])).1
     (h.map fun o => (o.start, o.cache.length)) = [(0, 2), (0, 1)] := by decide
 
+/-- **cache_inv_repair** (the truncated case, where `start` does move).  A photon-count access changes `start`
+    only (a) by the repair, which hands the object a NEW, EMPTY memo table (so no value computed from the old
+    start survives in it, and a value being computed during the repair is stored in the orphaned table — `gen`),
+    or (b) by the sub-sample workaround, which moves `start` forward by less than one sample period and keeps the
+    table (the info-wave window, hence every memoised value, is the same). -/
+theorem cache_inv_repair (f : File) (o : Obj) (c : Color) (o' : Obj) (w : Option (Int × Int))
+    (hp : photonAccess f o c = .ok (o', w)) :
+    (o'.start = o.start ∧ o'.cache = o.cache ∧ o'.gen = o.gen) ∨ (o'.cache = [] ∧ o'.gen = o.gen + 1) ∨
+      (o.start < o'.start ∧ o'.start - f.dt < o.start ∧ o'.cache = o.cache ∧ o'.gen = o.gen) :=
+  photonAccess_start f o c hp
+
 /-! ## purity on untruncated objects -/
 
 /-- **purity_untruncated.**  If no photon timeline starts after the nominal start (and everything lies on
